@@ -19,9 +19,9 @@ EXPLANATION = ('(1) the slice bounds of _split_list are read from the current so
                'receives designates the user\'s atoms, dropped iff the fixed-side atom is a hydrogen, order kept.  (4) the real Manager '
                'routes per-species option dictionaries to recording alignments (opaque token values).')
 BOUNDS = {'quick': {'splitter': 'parts 1..40, every length >= parts', 'residue lengths': '1..12 x 1..12', 'protein': '<= 3 residues of length <= 3',
-                    'alignment': 'molecules of 2..4 atoms, all hydrogen masks, restraint lists of 1..2 symbolic pairs, three size orders',
+                    'alignment': 'two-residue molecules of 2..4 atoms, all hydrogen masks, restraint lists of 0..2 symbolic pairs (the empty list included), three size orders',
                     'manager': 'all subsets of 3 species given options'},
-          'thorough': {'residue lengths': '1..40 x 1..40', 'alignment': 'molecules up to 5 atoms, lists of 1..3 pairs'}}
+          'thorough': {'residue lengths': '1..40 x 1..40', 'alignment': 'molecules up to 5 atoms with lists of 0..2 pairs; lists of 0..3 pairs for molecules up to 3 atoms'}}
 OUTSIDE = ['random multi-residue molecules beyond 3 residues', 'the Monte-Carlo engine itself (stubbed: C06/C09)']
 STUBS = ['gaddlemaps._alignment.minimize_molecules -> recorder returning the mobile coordinates', 'Manager built directly around recording Alignment objects']
 ASSUMPTIONS = ['restraint indices within range (0 <= i < len(start), 0 <= j < len(end))', 'z3 Int div = Python // for positive divisors']
@@ -36,7 +36,8 @@ def cases(tier):
     cs.append({'name': 'protein-guess'})
     maxn = 4 if tier == 'quick' else 5
     for ns, ne in [(a, b) for a in range(2, maxn + 1) for b in range(2, maxn + 1) if abs(a - b) <= 2]:
-        cs.append({'name': 'alignment/start%d-end%d' % (ns, ne), 'ns': ns, 'ne': ne, 'npairs': 2 if tier == 'quick' else 3})
+        # (ns*ne)^pairs paths per hydrogen mask: three symbolic pairs only for molecules of up to 3 atoms
+        cs.append({'name': 'alignment/start%d-end%d' % (ns, ne), 'ns': ns, 'ne': ne, 'npairs': 3 if (tier != 'quick' and max(ns, ne) <= 3) else 2})
     cs.append({'name': 'manager-routing'})
     return cs
 
@@ -204,8 +205,9 @@ def _alignment(case):
 
             def run(ctx, L):
                 del calls[:]
-                def mk(name, n, prefix, hmask):
-                    atoms = [(('H%d' % a) if (hmask and hmask[a]) else ('%s%d' % (prefix, a)), name[:3], 1) for a in range(n)]
+                def mk(name, n, prefix, hmask, nres=2):
+                    # multi-residue molecules: explicit restraints (also an explicit empty list) must switch the automatic guess off
+                    atoms = [(('H%d' % a) if (hmask and hmask[a]) else ('%s%d' % (prefix, a)), name[:3], 1 if (nres == 1 or a < (n + 1) // 2) else 2) for a in range(n)]
                     # concrete, pairwise distinct coordinates (the routing of indices does not depend on geometry; symbolic
                     # coordinates would only add bond-length comparison forks inside align_molecules)
                     base = 0.0 if prefix == 'C' else 50.0
@@ -213,19 +215,22 @@ def _alignment(case):
                              [[base + 1.0 * a_, 0.37 * a_ * a_ + 0.1, 0.11 * a_ + 0.05 * (a_ % 2)] for a_ in range(n)]
                     return make_molecule(name, atoms, [(a, a + 1) for a in range(n - 1)], coords)
                 start = mk('STA', ns, 'C', mask if fixed_is_start else None)
-                end = mk('END', ne, 'N', None if fixed_is_start else mask)
+                end = mk('END', ne, 'N', None if fixed_is_start else mask, nres=2 if (ns + ne) % 2 == 0 else 1)
                 R = []
                 for q in range(L):
                     ctx.assume(z3.And(iv[q] >= 0, iv[q] < ns, jv[q] >= 0, jv[q] < ne))
                     R.append((SymInt(iv[q], 0, ns - 1), SymInt(jv[q], 0, ne - 1)))
                 ali = al.Alignment(start, end)
-                ali.align_molecules(restrictions=R, deformation_types=(0, 1), ignore_hydrogens=ign)
+                try:
+                    ali.align_molecules(restrictions=R, deformation_types=(0, 1), ignore_hydrogens=ign)
+                except Exception as e:            # the real code refusing valid restraints is a finding, not a harness error
+                    return [(R[q][0].concretize(), R[q][1].concretize()) for q in range(L)], '%s: %s' % (type(e).__name__, str(e)[:120]), None, None
                 user = []
                 for q in range(L):
                     user.append((R[q][0].concretize(), R[q][1].concretize()))
                 fixed, mobile = (ali.start, ali.end) if fixed_is_start else (ali.end, ali.start)
                 return user, list(calls), fixed, mobile
-            for L in range(1, npairs + 1):
+            for L in range(0, npairs + 1):
                 bad = None
                 npth = 0
                 for ctx, res, exc in explore(lambda ctx: run(ctx, L), max_paths=5000):
@@ -235,6 +240,9 @@ def _alignment(case):
                         bad = bad or 'abort %r' % (exc,)
                         continue
                     user, cl, fixed, mobile = res
+                    if isinstance(cl, str):
+                        bad = bad or 'restraints %s: align_molecules raised %s' % (user, cl)
+                        continue
                     if len(cl) != 1:
                         bad = bad or 'optimiser called %d times' % len(cl)
                         continue
